@@ -75,6 +75,24 @@ def generate(rng, n, tier="quick"):
                {"op": "render", "reg": 0, "api": "render", "name": "main", "data": enc({"o": {"x": 1}})}]
         case = {"kind": "session", "regs": [{"escape": "html", "decorators": [{"name": "setctx", "kind": "setctx"}]}], "ops": ops, "id": "%s-d%d" % (ID, k)}
         out.append((case, {"mode": "ast", "strict": ["musterr", [exp]], "loose": ["any", ""]}))
+    # directed: strict mode asks whether an else branch is THERE, not whether it writes something – `with` / `each` on a missing,
+    # falsy or non-iterable value with an else that is empty (plain, `^`, at the end of a chain, after an empty link) render as in
+    # non-strict mode; without any else they are the strict error
+    rows = [("[{{#with nope}}x{{else}}{{/with}}]", ("must", "[]")), ("[{{#each nope}}x{{else}}{{/each}}]", ("must", "[]")),
+            ("[{{#with f}}x{{^}}{{/with}}]", ("must", "[]")), ("[{{#each s}}x{{^}}{{/each}}]", ("must", "[]")),
+            ("[{{#if nope}}A{{else with nope}}B{{else}}{{/if}}]", ("must", "[]")), ("[{{#if nope}}A{{else each nope}}{{else}}{{/if}}]", ("must", "[]")),
+            ("[{{#with nope}}{{else}}{{/with}}]", ("must", "[]")), ("[{{#with nope}}x{{else}} {{/with}}]", ("must", "[ ]")),
+            ("[{{#with nope}}x{{else}}{{!c}}{{/with}}]", ("must", "[]")), ("[{{#with o}}{{#each nope}}x{{else}}{{/each}}{{/with}}]", ("must", "[]")),
+            ("[{{#with nope}}x{{/with}}]", ("musterr", ["MissingVariable"])), ("[{{#each nope}}x{{/each}}]", ("musterr", ["MissingVariable"])),
+            ("[{{#if nope}}A{{else with nope}}B{{/if}}]", ("musterr", ["MissingVariable"])), ("[{{#each e}}x{{/each}}]", ("must", "[]"))]
+    for k, (tpl, exp) in enumerate(rows):
+        d = {"o": {"x": 1}, "f": False, "s": "str", "e": []}
+        ops = [{"op": "reg_string", "reg": 0, "name": "main", "src": tpl},
+               {"op": "render", "reg": 0, "api": "render", "name": "main", "data": enc(d)},
+               {"op": "set_strict", "reg": 0, "v": True},
+               {"op": "render", "reg": 0, "api": "render", "name": "main", "data": enc(d)}]
+        case = {"kind": "session", "regs": [{"escape": "html"}], "ops": ops, "id": "%s-else%02d" % (ID, k)}
+        out.append((case, {"mode": "ast", "strict": list(exp), "loose": ["must", "[ ]" if "}} {{" in tpl else "[]"]}))
     return out
 
 
